@@ -1,10 +1,90 @@
-(* C01 property theorems (statements closed by [exact]); filled as the proofs land. *)
-From Tbfmm Require Import Base.Prelude Index.MortonDefs Tree.GroupDefs Tree.BuildDefs Tree.Invariant Exec.ExecDefs.
+(* C01 — every pair of distinct particles interacts exactly once.
+   Statements only; each closed by [exact]/[apply] of lemmas of Spec/ExactlyOnce.v, Exec/Refine*.v, Index/ListsCapacity.v. *)
+From Tbfmm Require Import Base.Prelude Index.MortonDefs Index.ListsDefs Index.ListsCapacity Tree.GroupDefs Tree.BuildDefs
+     Tree.Invariant Exec.ExecDefs Spec.Elem Spec.Kernel Spec.Geometry Spec.ExactlyOnce Exec.RefineM2M Exec.RefineM2L.
+From Coq Require Import Sorting.Permutation Sorting.Sorted.
 Local Open Scope Z_scope.
 
-(* non-vacuity / smoke: the model executes a concrete tree without any assertion failure *)
-Theorem C01_example_no_assert :
-  forallb (fun c => match c with CAssert _ => false | _ => true end)
-          (execute 3 false 2 63 (build (parent 3) 4 2 false [5;5;63;0;9;12;9;300;301;511])) = true.
-Proof. vm_compute. reflexivity. Qed.
-Print Assumptions C01_example_no_assert.
+Lemma cap : forall d, (0 < d)%nat -> forall l t, 0 <= l -> 0 <= t < 2 ^ (l * dz d) -> zlen (ilist_cell d false l t) <= nb_interactions d.
+Proof. intros d Hd l t Hl Ht. exact (ilist_cell_capacity d false l t Hd Hl Ht). Qed.
+
+(* MAIN (any well-formed tree): with the free additive kernel, after one complete execution of the group-level executor
+   model on ANY tree satisfying the tree invariant (any block size, either grouping mode, any occupancy, any dimension d >= 1,
+   any height H >= 1, upper working level s <= 2), the weight of particle q has reached particle p exactly once if p <> q and
+   never if p = q. *)
+Theorem C01_exactly_once : forall d H B mode s t idx, (0 < d)%nat ->
+  1 <= H -> tree_ok (parent d) H B mode t -> particles_ok idx t ->
+  Forall (fun i => 0 <= i < 2 ^ ((H - 1) * dz d)) idx -> idx <> [] -> s <= 2 ->
+  let st := run (H - 1) (execute d false s 63 t) st0 in
+  forall p q, 0 <= p < zlen idx -> 0 <= q < zlen idx -> reached st p q = (if p =? q then 0%nat else 1%nat).
+Proof. intros d H B mode s t idx Hd. exact (fmm_exactly_once d Hd (cap d Hd) H B mode s t idx). Qed.
+Print Assumptions C01_exactly_once.
+
+(* the same for the tree the constructor model builds from any particle set, together with: no internal assertion of the
+   executor (sizes of the stack arrays, found-parent / found-child / found-source checks, cursor consistency) can fire *)
+Theorem C01_exactly_once_build : forall d H B mode s idx, (0 < d)%nat ->
+  1 <= H -> 1 <= B -> idx <> [] -> Forall (fun i => 0 <= i < 2 ^ ((H - 1) * dz d)) idx -> s <= 2 ->
+  let t := build (parent d) H B mode idx in
+  no_assert (execute d false s 63 t) /\
+  forall p q, 0 <= p < zlen idx -> 0 <= q < zlen idx ->
+    reached (run (H - 1) (execute d false s 63 t) st0) p q = (if p =? q then 0%nat else 1%nat).
+Proof. intros d H B mode s idx Hd. exact (fmm_exactly_once_build d H B mode s idx Hd (cap d Hd)). Qed.
+Print Assumptions C01_exactly_once_build.
+
+(* cell equation (upward): at and below the upper working level every multipole holds exactly the particles of its cell *)
+Theorem C01_multipoles : forall d H B mode s t idx l c, (0 < d)%nat ->
+  1 <= H -> tree_ok (parent d) H B mode t -> particles_ok idx t ->
+  Forall (fun i => 0 <= i < 2 ^ ((H - 1) * dz d)) idx -> idx <> [] ->
+  let st := run (H - 1) (execute d false s 63 t) st0 in
+  Z.max 0 s <= l < H -> In c (level_cells (levels_of t l)) ->
+  forall q, count_occ Z.eq_dec (s_mult st l c) q =
+            (if existsb (fun lf => (anc d (H - 1) l (lf_index lf) =? c) && zmem q (lf_parts lf)) (all_leaves t) then 1%nat else 0%nat).
+Proof. intros d H B mode s t idx l c Hd. exact (fmm_multipoles d Hd (cap d Hd) H B mode s t idx l c). Qed.
+Print Assumptions C01_multipoles.
+
+(* no assertion can fire for any flags / any upper level *)
+Theorem C01_no_assert : forall d H B mode s flags t idx, (0 < d)%nat ->
+  1 <= H -> tree_ok (parent d) H B mode t -> particles_ok idx t ->
+  Forall (fun i => 0 <= i < 2 ^ ((H - 1) * dz d)) idx -> idx <> [] ->
+  no_assert (execute d false s flags t).
+Proof. intros d H B mode s flags t idx Hd. exact (execute_no_assert d Hd (cap d Hd) H B mode s flags t idx). Qed.
+Print Assumptions C01_no_assert.
+
+(* the refinement lemmas the composition rests on (whatever the grouping): *)
+(* R1+R2: the two-cursor level driver + sibling wrapper emit every child->parent link exactly once *)
+Theorem C01_staircase_m2m : forall d l lowers uppers, (0 < d)%nat ->
+  level_ok lowers -> level_ok uppers -> Forall (fun c => 0 <= c) (level_cells lowers) ->
+  level_cells uppers = parents_of (parent d) (level_cells lowers) ->
+  let tr := staircase d (staircase_fuel lowers uppers) (CM2M l) lowers uppers in
+  no_assert tr /\ Permutation (elementary tr) (spec_links d EM2M l (level_cells lowers)).
+Proof. exact staircase_m2m_exact. Qed.
+Print Assumptions C01_staircase_m2m.
+(* R3+R4: list builder + index/group mapper + run-by-target wrappers emit every (target, existing list member) exactly once *)
+Theorem C01_m2l_level : forall d per l groups, level_ok groups ->
+  (forall t, In t (level_cells groups) -> zlen (ilist_cell d per l t) <= nb_interactions d) ->
+  no_assert (m2l_level d per l groups) /\
+  Permutation (elementary (m2l_level d per l groups)) (spec_m2l d per l (level_cells groups)).
+Proof. exact m2l_level_exact. Qed.
+Print Assumptions C01_m2l_level.
+Theorem C01_p2p_groups : forall d per L pgs, Forall pgroup_ok pgs -> StronglySorted Z.lt (flat_map pg_indices pgs) ->
+  no_assert (p2p_groups d per L pgs) /\
+  Permutation (elementary (p2p_groups d per L pgs))
+              (spec_p2p d per L (flat_map pg_leaves pgs) ++ spec_p2p_inner (flat_map pg_leaves pgs)).
+Proof. exact p2p_groups_exact. Qed.
+Print Assumptions C01_p2p_groups.
+(* geometry: two leaves are either near (equal/adjacent) and never in far interaction, or far at exactly one level *)
+Theorem C01_near_xor_far_once : forall d L s a b, (0 < d)%nat -> 0 <= L -> 0 <= s <= 2 ->
+  0 <= a < 2 ^ (L * dz d) -> 0 <= b < 2 ^ (L * dz d) ->
+  ((a = b \/ adjacent d L a b) /\ forall l, s <= l <= L -> ~ far_at d L l a b)
+  \/ (~ (a = b \/ adjacent d L a b) /\ exists l, s <= l <= L /\ far_at d L l a b /\ forall l', s <= l' <= L -> far_at d L l' a b -> l' = l).
+Proof. exact near_xor_far_once. Qed.
+Print Assumptions C01_near_xor_far_once.
+
+(* non-vacuity: a concrete 3-D tree of height 4 meets the hypotheses and the conclusion evaluates to true *)
+Example C01_example :
+  let idx := [5;5;63;0;9;12;9;300;301;511;448;449;64;65;100;200;201;77] in
+  let t := build (parent 3) 4 3 false idx in
+  tree_okb (parent 3) 4 3 false t = true /\
+  forallb (fun p => forallb (fun q => Nat.eqb (reached (run 3 (execute 3 false 2 63 t) st0) p q) (if p =? q then 0%nat else 1%nat))
+                            (zseq 18)) (zseq 18) = true.
+Proof. vm_compute. split; reflexivity. Qed.
